@@ -52,10 +52,22 @@ def get_expanded_statements(prog: xir.Program) -> Sequence[xir.Statement]:
                 param_mapping = dict(zip(prog.search("gate", "params", op.name), op.params))
 
                 # create a new statement object with substituted parameters and wires
+                expansion = []
                 for stmt in sub_statements:
                     wires = tuple(wire_mapping[w] for w in stmt.wires)
                     params = [param_mapping[w] for w in stmt.params]
-                    flattened_statements.append(xir.Statement(stmt.name, params, wires))
+                    expansion.append(
+                        xir.Statement(stmt.name, params, wires, inverse=stmt.is_inverse)
+                    )
+
+                if op.is_inverse:
+                    # the inverse of a sequence: the inverted statements in reverse order
+                    expansion = [
+                        xir.Statement(s.name, s.params, s.wires, inverse=not s.is_inverse)
+                        for s in reversed(expansion)
+                    ]
+
+                flattened_statements.extend(expansion)
             else:
                 flattened_statements.append(op)
         return flattened_statements
